@@ -4,9 +4,11 @@ package real
 
 import (
 	"fmt"
+	"regexp"
 	"strings"
 	"time"
 
+	dbm "github.com/cometbft/cometbft-db"
 	abci "github.com/cometbft/cometbft/abci/types"
 	tmproto "github.com/cometbft/cometbft/proto/tendermint/types"
 	"github.com/cosmos/cosmos-sdk/client"
@@ -30,9 +32,37 @@ type Runner struct {
 	Time    time.Time      // time of the current (or last committed) block
 	Height  int64          // application height of the current block
 
+	Home   string // scratch directory (application home; goleveldb directories live below it)
+	Blocks int64  // blocks committed since INIT (counting continues over EXPORTIMPORT)
+
 	valPriv, badPriv *secp256k1.PrivKey
 	consAddr         []byte
 	gov              []govItem // GOVEXEC lines of the current block
+
+	backend string // memdb | goleveldb
+	db      dbm.DB // database of App; survives dropping the application object
+	dbDir   string // goleveldb: directory of db
+	dbSeq   int
+
+	commitHeight int64 // LastBlockHeight / LastCommitID().Hash / block time right after the last Commit
+	commitHash   []byte
+	commitTime   time.Time
+	checkZero    bool // the check state carries a header with height 0 (after InitChain, after a restart)
+
+	blk blockLog // what was executed in the open block (for Redo)
+}
+
+// blockLog records the open block so that a twin run can replay it with identical bytes.
+type blockLog struct {
+	begun, ended bool
+	time         time.Time
+	txs          []BlockTx
+}
+
+// BlockTx is one DeliverTx of the open block; N < 0 marks an untraced environment transaction.
+type BlockTx struct {
+	N  int
+	Bz []byte
 }
 
 // Outcome is the classified result of a transaction.
@@ -42,7 +72,12 @@ type Outcome struct {
 	Code      uint32
 	Log       string
 	Fields    []string // response fields, only for ok
+
+	GasWanted, GasUsed int64
+	Data               []byte
 }
+
+var goroutineRe = regexp.MustCompile(`goroutine [0-9]+`)
 
 func classify(code uint32, codespace string) string {
 	switch {
@@ -73,6 +108,7 @@ func guard(f func()) (panicked interface{}) {
 // Begin runs BeginBlock; ok is false when it panicked.
 func (r *Runner) Begin(t time.Time) (ok bool, msg string) {
 	r.Time, r.Height, r.gov = t.UTC(), r.App.LastBlockHeight()+1, nil
+	r.blk = blockLog{begun: true, time: r.Time}
 	if p := guard(func() { r.App.BeginBlock(abci.RequestBeginBlock{Header: r.header()}) }); p != nil {
 		return false, fmt.Sprint(p)
 	}
@@ -84,12 +120,24 @@ func (r *Runner) End() (ok bool, results []string, err error) {
 	if p := guard(func() { r.App.EndBlock(abci.RequestEndBlock{Height: r.Height}) }); p != nil {
 		return false, nil, nil
 	}
+	r.blk.ended = true
 	results, err = r.govResults()
 	return true, results, err
 }
 
 // Commit commits the open block.
-func (r *Runner) Commit() { r.App.Commit() }
+func (r *Runner) Commit() {
+	r.App.Commit()
+	r.Blocks++
+	r.checkZero = false
+	r.markCommitted()
+}
+
+// markCommitted remembers what a restart must find again.
+func (r *Runner) markCommitted() {
+	r.commitHeight, r.commitHash, r.commitTime = r.App.LastBlockHeight(), r.App.LastCommitID().Hash, r.Time
+	r.blk = blockLog{}
+}
 
 // accountInfo reads account number and sequence (zero for a missing account).
 func (r *Runner) accountInfo(ctx sdk.Context, addr sdk.AccAddress) (num, seq uint64) {
@@ -198,8 +246,9 @@ func (r *Runner) Deliver(t script.Tx) (Outcome, error) {
 	if err != nil {
 		return Outcome{}, err
 	}
+	r.blk.txs = append(r.blk.txs, BlockTx{N: t.N, Bz: bz})
 	res := r.App.DeliverTx(abci.RequestDeliverTx{Tx: bz})
-	o := Outcome{Class: classify(res.Code, res.Codespace), Codespace: res.Codespace, Code: res.Code, Log: res.Log}
+	o := outcomeOf(res)
 	if o.Class == "ok" {
 		if o.Fields, err = r.responseFields(res.Data); err != nil {
 			return o, err
@@ -208,12 +257,17 @@ func (r *Runner) Deliver(t script.Tx) (Outcome, error) {
 	return o, nil
 }
 
+func outcomeOf(res abci.ResponseDeliverTx) Outcome {
+	return Outcome{Class: classify(res.Code, res.Codespace), Codespace: res.Codespace, Code: res.Code, Log: res.Log,
+		GasWanted: res.GasWanted, GasUsed: res.GasUsed, Data: res.Data}
+}
+
 // Check executes a CHECK line (CheckTx, type New) on the check state. Before the first
-// block the check state still carries the InitChain header (height 0), where the SDK's
-// signature verification substitutes account number 0; the harness signs accordingly so that
-// sig=ok keeps meaning "valid signature".
+// block the check state still carries the InitChain header (height 0) — and after a restart an
+// empty header until the next Commit — where the SDK's signature verification substitutes
+// account number 0; the harness signs accordingly so that sig=ok keeps meaning "valid signature".
 func (r *Runner) Check(t script.Tx) (Outcome, error) {
-	bz, err := r.encode(r.CheckCtx(), t, r.Height == 0)
+	bz, err := r.encode(r.CheckCtx(), t, r.checkZero)
 	if err != nil {
 		return Outcome{}, err
 	}
@@ -229,7 +283,8 @@ func (o Outcome) TraceLines(hard, soft string, n int) []string {
 	}
 	out := []string{h, fmt.Sprintf("%s %d %s:%d", soft, n, o.Codespace, o.Code)}
 	if o.Class == "panic" {
-		out = append(out, fmt.Sprintf("p %d %s", n, oneToken(o.Log)))
+		// the goroutine number in the recovered stack trace differs from run to run
+		out = append(out, fmt.Sprintf("p %d %s", n, oneToken(goroutineRe.ReplaceAllString(o.Log, "goroutine N"))))
 	}
 	return out
 }
